@@ -195,13 +195,13 @@ def parseInt (bits : Nat) (s : List Byte) : Option Int :=
 
 /-- `strconv` as a parameter.  `format32 f` is `strconv.FormatFloat(f, 'g', -1, 32)` (its argument is the
 `float64` that `Value.Float()` returns), `format64 f` is `FormatFloat(f, 'g', -1, 64)`,
-`parse64 s` is `ParseFloat(s, 64)` (`none` = `err != nil`), `parse32 s` is the value of `ParseFloat(s, 32)`
-converted to `float32`, a range error ignored (`none` = syntax error; used only by the repaired `unmarshalFixed`). -/
+`parse64 s` is `ParseFloat(s, 64)` (`none` = `err != nil`), `parse32 s` is the `float64` value that
+`v, _ = ParseFloat(s, 32)` leaves in `v` (the error is discarded by the code: ±Inf on a range error). -/
 structure FloatCodec where
   format32 : BitVec 64 → List Byte
   format64 : BitVec 64 → List Byte
   parse64 : List Byte → Option (BitVec 64)
-  parse32 : List Byte → Option (BitVec 32)
+  parse32 : List Byte → BitVec 64
 
 def exp32 (b : BitVec 32) : Nat := b.toNat / 2 ^ 23 % 256
 def man32 (b : BitVec 32) : Nat := b.toNat % 2 ^ 23
@@ -351,12 +351,13 @@ def marshal (fc : FloatCodec) (v : Value) (ev : Option EnumValue) (k : Kind) (f 
     | _ => none
   | .message | .group => none
 
-/-- the `switch s` of the float case of `Unmarshal`, with the 64-bit parse -/
-def parseFloatText (fc : FloatCodec) (s : List Byte) : Option (BitVec 64) :=
+/-- the `switch s` of the float case of `Unmarshal`: the `float64` `v` it leaves (`none` = `err != nil`).
+`default:` parses at 64 bits for acceptance and, for `FloatKind`, takes the value from `ParseFloat(s, 32)`. -/
+def parseFloatText (fc : FloatCodec) (k : Kind) (s : List Byte) : Option (BitVec 64) :=
   if s = sNegInf then some negInf64
   else if s = sInf then some posInf64
   else if s = sNaN then some goNaN64
-  else fc.parse64 s
+  else (fc.parse64 s).map fun v => if k = .float then fc.parse32 s else v
 
 /-- `Unmarshal(s, k, evs, f)`: value and enum value descriptor; `none` = error -/
 def unmarshal (fc : FloatCodec) (s : List Byte) (k : Kind) (evs : List EnumValue) (f : Format) :
@@ -375,24 +376,11 @@ def unmarshal (fc : FloatCodec) (s : List Byte) (k : Kind) (evs : List EnumValue
   | .int64 | .sint64 | .sfixed64 => (parseInt 64 s).map fun v => (.int64 (BitVec.ofInt 64 v), none)
   | .uint32 | .fixed32 => (parseUint 32 s).map fun v => (.uint32 (BitVec.ofNat 32 v), none)
   | .uint64 | .fixed64 => (parseUint 64 s).map fun v => (.uint64 (BitVec.ofNat 64 v), none)
-  | .float => (parseFloatText fc s).map fun v => (.float32 (narrow v), none)
-  | .double => (parseFloatText fc s).map fun v => (.float64 v, none)
+  | .float => (parseFloatText fc k s).map fun v => (.float32 (narrow v), none)
+  | .double => (parseFloatText fc k s).map fun v => (.float64 v, none)
   | .string => some (.string s, none)
   | .bytes => (unmarshalBytes s).map fun b => (.bytes b, none)
   | .message | .group => none
-
-/-- `Unmarshal` after the proposed repair (`fixes/defval-float32-parse.diff`): for `FloatKind`, once
-`ParseFloat(s, 64)` has accepted the text, the value is taken from `ParseFloat(s, 32)` (its range error is
-ignored: ±Inf, as the narrowing conversion gave); everything else unchanged. -/
-def unmarshalFixed (fc : FloatCodec) (s : List Byte) (k : Kind) (evs : List EnumValue) (f : Format) :
-    Option (Value × Option EnumValue) :=
-  match k with
-  | .float =>
-    if s = sNegInf then some (.float32 (narrow negInf64), none)
-    else if s = sInf then some (.float32 (narrow posInf64), none)
-    else if s = sNaN then some (.float32 (narrow goNaN64), none)
-    else (fc.parse64 s).bind fun _ => (fc.parse32 s).map fun v => (.float32 v, none)
-  | _ => unmarshal fc s k evs f
 
 /-- the Go type a value of kind `k` holds (what `protoreflect` documents) -/
 def wellTyped : Kind → Value → Bool
@@ -415,7 +403,7 @@ def Value.same : Value → Value → Bool
   | a, b => a == b
 
 /-! ## Hypotheses about `strconv` (never axioms: they are fields of structures that theorems take as arguments;
-the harness validates them against Go's `strconv`, `Law32`/`Law32Via64` over all 2^32 patterns in the thorough tier) -/
+the harness validates them against Go's `strconv`, `Law32` over all 2^32 patterns in the thorough tier) -/
 
 /-- the three tokens that `Unmarshal` intercepts before calling `ParseFloat` -/
 def specials : List (List Byte) := [sNegInf, sInf, sNaN]
@@ -425,17 +413,12 @@ structure FloatCodec.Law64 (fc : FloatCodec) : Prop where
   notSpecial : ∀ b, isFinite64 b = true → fc.format64 b ∉ specials
   roundtrip : ∀ b, isFinite64 b = true → fc.parse64 (fc.format64 b) = some b
 
-/-- what the code *as written* needs for `float32`: the shortest 32-bit text, parsed at 64 bits and then
-narrowed, gives the value back — for every finite `b` outside `bad` (it is false for two values: finding 16). -/
-structure FloatCodec.Law32Via64 (fc : FloatCodec) (bad : BitVec 32 → Prop) : Prop where
-  notSpecial : ∀ b, isFinite32 b = true → fc.format32 (widen b) ∉ specials
-  roundtrip : ∀ b, isFinite32 b = true → ¬ bad b → (fc.parse64 (fc.format32 (widen b))).map narrow = some b
-
-/-- what the repaired code needs: `float32(ParseFloat(FormatFloat(float64(x),'g',-1,32), 32)) == x` for finite `x` -/
+/-- for every finite float32 `x` with `s = FormatFloat(float64(x),'g',-1,32)`: `s` is not a special token,
+`ParseFloat(s, 64)` accepts it, and `float32(ParseFloat(s, 32)) == x`. -/
 structure FloatCodec.Law32 (fc : FloatCodec) : Prop where
   notSpecial : ∀ b, isFinite32 b = true → fc.format32 (widen b) ∉ specials
   accepted : ∀ b, isFinite32 b = true → (fc.parse64 (fc.format32 (widen b))).isSome = true
-  roundtrip : ∀ b, isFinite32 b = true → fc.parse32 (fc.format32 (widen b)) = some b
+  roundtrip : ∀ b, isFinite32 b = true → narrow (fc.parse32 (fc.format32 (widen b))) = b
 
 /-- "7.038531e-26" -/
 def witnessText : List Byte :=
